@@ -16,8 +16,8 @@ CLAIMED = {
    text="zcReader/zcWriter/ioReader/ioWriter run on the real LinkBuffer code against io.Reader/io.Writer stubs whose every count and error is a solver variable (short, zero, negative counts, data with error); two successive calls; stream compared with a rope reference; LinkBufferCap symbolic in one harness.",
    note=LB_NOTE + "; <= 3 source/sink calls per harness", ref="5.4"),
  "C18": dict(cat="model_checking", tech="bounded symbolic execution of go/ssa + SMT (z3)",
-   text="Round-robin pick arithmetic decided for every pool size 1..8 and every counter value below 2^62 by symbolic execution of the real roundRobinLB.Pick; lazy-initialisation interleavings by the partial-order encoding (see DESIGN 5.19).",
-   note="openPoll stubbed by a ghost poller; fastrand arbitrary in range; bounds in evidence", ref="5.19"),
+   text="Round-robin pick arithmetic decided for every pool size 1..8 and every counter value below 2^62 by symbolic execution of the real roundRobinLB.Pick/randomLB.Pick; sequential reconfiguration histories (SetNumLoops grow/shrink/fail, SetLoadBalance, Close, Reset) of 1..4 steps with openPoll failing at any point: size, running pollers and balancer view checked after every step.",
+   note="openPoll stubbed by a ghost poller that may fail; fastrand arbitrary in range; the concurrent first-use race (two goroutines in the first Pick) is NOT covered: its partial-order exploration does not converge (40 800 events) and is left out", ref="5.19"),
 }
 PO_NOTE = "sequential consistency; buffers summarised on their length counter; kernel (epoll_ctl, close, sendmsg), timers and runner.RunTask replaced by ghost stubs; poller slot recycling stubbed to the token protocol (C10 covers it); bounds (deliveries, closers, task instances, state revisits) in evidence; counterexamples are schedules over real source lines, replayed at the interpreter level only (no native schedule replay)"
 SEQ_NOTE = "kernel calls replaced by nondeterministic stubs with stated contracts; counterexamples re-executed concretely in the interpreter (stubs cannot be installed in the native build)"
@@ -43,6 +43,29 @@ CLAIMED.update({
  "C12": dict(cat="model_checking", tech="bounded symbolic execution of go/ssa + SMT over the method x close-mode matrix",
    text="23 methods x {user, peer, peer then user, detach} x {with/without OnRequest} x {output pending or not}, input 0..64 bytes symbolic: the real close path runs to completion on real buffers, then the method is called, then Close, then the method again; no panic path, no blocking path, ErrConnClosed/ErrEOF matching as stated.",
    note=SEQ_NOTE, ref="5.14"),
+})
+CLAIMED.update({
+ "C04": dict(cat="model_checking", tech="bounded symbolic execution of go/ssa + SMT; decomposed send/receive path over real LinkBuffer code",
+   text="Decomposed as in DESIGN 5.5: GetBytes/iovec construction (1..4 nodes), pollArgs reset, and the send path (flush -> sendmsg with arbitrary short counts/EAGAIN -> outputAck -> write-ready resume) are executed symbolically on the real buffer code; the bytes the kernel ghost received are compared with the bytes written for every size and every kernel answer; the receive half (book/bookAck) is part of the C01 operations.",
+   note=SEQ_NOTE + "; <= 4 iovecs, <= 3 sendmsg answers per flush; receive and send halves are checked separately (no socket in between)", ref="5.5"),
+ "C08": dict(cat="model_checking", tech="partial-order (event/clock) SMT encoding of per-thread symbolic executions of go/ssa",
+   text="flush/waitFlush/sendmsg/outputAck/onWrite (rw2r)/onHup/onClose executed symbolically per thread: writer with 1-2 Flush calls vs poller write-ready dispatches, peer drain, write-timer expiry, close; oracle: nil only when the kernel ghost took every byte, error only with close/timeout, writer never left blocked once space/close/expiry holds (quiescence).",
+   note=PO_NOTE + "; scenario 2 (timeout + two dispatches) is decided for safety only: its quiescence query exceeds the time-out and is reported as reduced bound", ref="5.10"),
+ "C13": dict(cat="model_checking", tech="bounded symbolic execution of go/ssa + SMT with event injection at the stub boundaries",
+   text="server.OnRead/onAccept/OnHup/Close executed sequentially with the racing step (peer hang-up, Shutdown, accept failure incl. EMFILE back-off) injected at every stub boundary by a solver-chosen switch; table of tracked connections compared with the ghost set after every step; Close returns only when all are closed or ctx expired.",
+   note=SEQ_NOTE + "; interleavings are limited to the injection points (kernel stubs, RunTask, callbacks), not instruction-level", ref="5.15"),
+ "C14": dict(cat="model_checking", tech="bounded symbolic execution of go/ssa + SMT; connect/poll/getsockopt answers symbolic",
+   text="DialConnection/dialer/netFD.dial/connect executed on kernel stubs whose every answer (EINPROGRESS, EINTR, EISCONN, error from SO_ERROR, readiness, deadline expiry) is a solver variable: result is a usable registered connection or an error with the descriptor closed once and nothing registered; timeout errors report Timeout().",
+   note=SEQ_NOTE, ref="5.16"),
+ "C15": dict(cat="model_checking", tech="bounded symbolic execution of go/ssa + SMT; descriptor ledger ghost at the syscall stubs",
+   text="Every encoded path that opens a descriptor (openPoll with epoll_create/eventfd, sysSocket with its option/dial failure paths, ConvertListener/File() dup, listener.Close, and the dial/accept failure paths of the C13/C14 harnesses) runs against a descriptor ledger that may re-issue a closed number to a foreign owner: each owned descriptor closed exactly once on every success and error path, no close of a descriptor not owned.",
+   note=SEQ_NOTE, ref="5.17"),
+ "C17": dict(cat="model_checking", tech="bounded symbolic execution of go/ssa + SMT over coarse-grained schedules",
+   text="ShardQueue Add/foreach/deal/Close executed symbolically over solver-chosen scripts of <= 5 steps (Add | run the pending worker task | Close) on 1..3 shards: every getter added before Close is invoked exactly once, a Flush follows the last Append, Adds after Close invoke nothing, trigger counter back to zero.",
+   note="worker tasks run atomically between user calls: instruction-level interleavings of Add with the worker are NOT covered (the partial-order exploration of this slice/closure-heavy code does not converge); runner.RunTask stubbed by a task list", ref="5.18"),
+ "C19": dict(cat="model_checking", tech="partial-order SMT encoding: adjacency query over conflicting access pairs (one plain)",
+   text="On every partial-order harness of C05-C09 (teardown, hand-off, wake-up, flush, lifecycle order) the query 'two accesses to the same location from different threads, one a write, one not atomic, both executed and adjacent in the global order' is posed over all statically conflicting pairs; a locked/unlocked pair of guard harnesses (vacuity twin) shows the query sees a race and does not invent one.",
+   note=PO_NOTE + "; buffer internals are summarised (the documented exemption); objects allocated by a thread and published later are snapshotted, so races on them are outside; server/dialer/ShardQueue/pool-reconfiguration scenarios are outside (no partial-order harness for them); no -race replay", ref="5.20"),
 })
 NA = {}
 props = [json.loads(l)["id"] for l in open("/verif/properties.jsonl")]
